@@ -44,12 +44,16 @@ CL_CLASSES = [
     [b"+5"], [b"-0"], [b"-5"], [b"+"], [b"5 5"], [b"abc"], [b"5x"], [b"0x10"], [b"5.0"], [b""],
     [b"%d" % TWO64], [b"%d" % (TWO64 + 5)], [b"99999999999999999999999999"], [b"00000000000000000000000005"],
     [b"5", b"5"], [b"5", b"6"], [b"0", b"0"], [b"5", b"x"], [b"5", b"5", b"5"], [b"", b"5"],
+    # white space that is NOT optional white space of a field line, and control bytes, around the number: the field
+    # line is malformed (400), the value is never "repaired" into a length
+    [b"\x0c5"], [b"5\x0c"], [b"\x0b5"], [b"5\x0b"], [b"\t5\t"], [b"5 \t"], [b"\x005"], [b"5\x7f"], [b"5\x1f"], [b"\x855"], [b"5\xa0"],
 ]
 TE_CLASSES = [
     [], [b"chunked"], [b"gzip"], [b"gzip, chunked"], [b"gzip,chunked"], [b"gzip ,\tchunked"], [b"chunked, gzip"],
     [b"identity"], [b"deflate"], [b"Chunked"], [b"GZIP"], [b", chunked ,"], [b""], [b","], [b"chunked, chunked"],
     [b"gzip, gzip"], [b"gzip, chunked, x"], [b"x, chunked"], [b"chunked", b"chunked"], [b"gzip", b"chunked"],
     [b"", b"chunked"], [b"", b""], [b"chunked;q=1"],
+    [b"chunked\x0c"], [b"\x0cchunked"], [b"chunked\x0b"], [b"gzip,\x0cchunked"], [b"chunked\t"], [b"\x00chunked"], [b"chunked\xa0"],
 ]
 EXPECT_CLASSES = [[], [b"100-continue"], [b"100-Continue"], [b"100-continue", b"100-continue"], [b"other"]]
 KNOWN_MT = [b"text/css", b"text/csv", b"text/event-stream", b"application/x-www-form-urlencoded", b"image/gif",
